@@ -62,7 +62,7 @@ struct Frame {                      // one decoded unit of daemon output on a co
 
 struct Exp {
 	enum Kind { RESP, NOTIFY, ROUTED, CLOSE, PONG } kind = RESP;
-	enum RK { R_TRUE, R_ERR_DAEMON, R_RESULT_EQ, R_ERROR_EQ, R_EITHER, R_ANYRESULT, R_GETSET, R_ERR_OR_GETSET } rk = R_TRUE;
+	enum RK { R_TRUE, R_ERR_DAEMON, R_RESULT_EQ, R_ERROR_EQ, R_EITHER, R_ANYRESULT, R_GETSET, R_ERR_OR_GETSET, R_OK_OR_ERR } rk = R_TRUE;
 	JV id;                      // RESP: expected id
 	JV payload;                 // RESP *_EQ / GETSET
 	JV fetchid; std::string event, path; bool check_value = false; bool has_value = false; JV value; // NOTIFY
@@ -130,6 +130,8 @@ struct Model {
 	bool route_may_fail = false;                               // descriptor-exhaustion faults are being injected
 	int max_matchers = 12;
 	std::string notify_prop = "C01";                             // property that owns notification expectations in this profile
+	bool faulty_add_either = false;                             // containment profile: an impaired peer's own add may be aborted; a healthy observer's view decides
+	bool notify_hit_unobservable = false;                       // the last notify() had to deliver to a peer whose stream is not observable (stalled, failing)
 	int opt_decision = -1;                                      // >=0: notifications issued now are optional until that decision is known
 	bool add_local_only = false;
 	double default_timeout_s = 5.0;
@@ -142,6 +144,7 @@ struct Model {
 	void on_timer_fired(int fd);
 	void on_timer_closed(int fd);
 	void on_routed_seen(int ref, const std::string &rid);
+	void on_routed_observed(int owner, const std::string &path, const JV *params, const std::string &rid);
 	void resolve_decision(int d, bool ok);
 	bool decision_pending() const;
 	std::vector<int> silent_decisions() const;
